@@ -219,6 +219,15 @@ class Run:
             f.seek(min(offset, len(blobs[idx])))
             self.open_streams.append(f)
             return f, f
+        if kind == "rwfile":
+            # a read/write handle whose content still sits in its user-space buffer (written, not flushed): what the
+            # stream DELIVERS is the content; the raw descriptor / the file's stat say something else
+            self._rw = getattr(self, "_rw", 0) + 1
+            f = open(os.path.join(self.src, f"rw{self._rw}"), "w+b")
+            f.write(blobs[idx])
+            f.seek(min(offset, len(blobs[idx])))
+            self.open_streams.append(f)
+            return f, f
         if kind == "bufreader":
             f = io.BufferedReader(io.BytesIO(blobs[idx]))
             f.seek(min(offset, len(blobs[idx])))
